@@ -20,7 +20,7 @@ RULE = (
     "non-trivial = repeated single-agent measurements / unequal chains / >=2 samples present"
 )
 ASSUMPTIONS = ["correlation cases whose centred prediction row is identically zero (0/0 diagonal) are detected and skipped"]
-REQUIRED = {"analysis_cli_runs": {"quick": 8, "thorough": 80}, "evaluation_cases": {"quick": 300, "thorough": 8000}, "single_effect_cases": {"quick": 300, "thorough": 8000}, "single_effect_cases_with_sparse_ids": {"quick": 80, "thorough": 2000}, "synergy_cases": {"quick": 300, "thorough": 8000}, "correlation_cases": {"quick": 60, "thorough": 1500}, "combinatoric_space_cases": {"quick": 100, "thorough": 2500}}
+REQUIRED = {"synergy_cases_with_integer_observations": {"quick": 60, "thorough": 1500}, "analysis_cli_runs": {"quick": 8, "thorough": 80}, "evaluation_cases": {"quick": 300, "thorough": 8000}, "single_effect_cases": {"quick": 300, "thorough": 8000}, "single_effect_cases_with_sparse_ids": {"quick": 80, "thorough": 2000}, "synergy_cases": {"quick": 300, "thorough": 8000}, "correlation_cases": {"quick": 60, "thorough": 1500}, "combinatoric_space_cases": {"quick": 100, "thorough": 2500}}
 N_CASES = {"quick": 1920, "thorough": 24000}
 
 
@@ -199,6 +199,11 @@ def run_shard(rec, tier, seed, shard, nshards):
                     if rng.random() < 0.35:
                         ob[i] = float(rng.choice([0.0, 0.0, 1.0, 0.25, -0.25]))
                 rec.count("synergy_cases_with_exact_zero_effects")
+            if rng.random() < 0.12:
+                # read-outs recorded as counts or dead / alive calls: an integer or boolean observation vector
+                dt_ = [np.int64, np.int32, np.uint8, bool][int(rng.integers(4))]
+                ob = (rng.random(n) < 0.6).astype(dt_) if dt_ is bool else rng.integers(0, 3, size=n).astype(dt_)
+                rec.count("synergy_cases_with_integer_observations")
             # make sure some combination rows lack a single-agent measurement
             w = {"sample_ids": sids.tolist(), "treatment_ids": tids.tolist()}
             single_rows = {}
